@@ -53,6 +53,14 @@ def perturbed(ctx, t, bi, n):
         if ss:
             i, info = r.choice(ss)
             out.append(("generic helper instantiated badly: " + stmt, tg.render(t, plant_s=(i, [stmt]))))
+    # generic helpers whose deferred operator / field constraint sits on a variable NESTED in a function type: instantiated
+    # badly through a higher-order argument, a tuple component, a blob field (and the well-typed controls, which must run)
+    for stmt in ('print(ztwice(zgneg1, "ab"))', 'print(zrunt((zgbump, 0)))', 'print(zrunb(Zhf { h: zgneg1 }))',
+                 'print(ztwice(fn x -> do (-x) end, "ab"))',
+                 'print(ztwice(zgdbl, "ab"))', 'print(zrunt((zgbumpa, 0)))', 'print(zrunb(Zhf { h: zgdbl }))'):
+        if ss:
+            i, info = r.choice(ss)
+            out.append(("generic helper instantiated through a nested type: " + stmt, tg.render(t, plant_s=(i, [stmt]))))
     # a local defined as a call that takes a function literal: the other arguments are resolved BEFORE the new variable
     # exists (well typed when an outer variable of that name exists, an unresolved name otherwise)
     for lines in (['zsh := 5', 'if true do', '    zsh := zapply(fn x: int -> int do x + 1 end, zsh)', '    print(zsh + 1)', 'end'],
